@@ -8,6 +8,7 @@
 #include <setjmp.h>
 #include <signal.h>
 #include <sys/mman.h>
+#include <ucontext.h>
 #include <unistd.h>
 
 #include "vh.h"
@@ -27,9 +28,17 @@ static __thread struct job* t_job;
 static uint8_t* g_stack_lo; static size_t g_stack_len;
 
 static void on_segv(int sig, siginfo_t* si, void* uc) {
-  (void)uc;
   uint8_t* a = si->si_addr;
-  if (t_jmp && a >= g_stack_lo - 65536 && a < g_stack_lo + 4096) { /* guard page (or just below): native stack exhausted */
+  /* a large frame (variable-length array, alloca) moves the stack pointer far below the guard page in one step: the
+   * faulting thread's stack pointer, not only the fault address, tells an exhausted stack from any other fault */
+  uint8_t* sp = NULL;
+#if defined(__x86_64__)
+  sp = (uint8_t*)((ucontext_t*)uc)->uc_mcontext.gregs[REG_RSP];
+#else
+  (void)uc;
+#endif
+  bool sp_below = sp && sp < g_stack_lo + 4096 && sp + ((size_t)1 << 32) > g_stack_lo;
+  if (t_jmp && ((a >= g_stack_lo - 65536 && a < g_stack_lo + 4096) || sp_below)) { /* guard page (or below): native stack exhausted */
     t_job->overflowed = true;
     siglongjmp(*t_jmp, 1);
   }
@@ -107,7 +116,8 @@ static void nest_case(int kind, int leaf, size_t depth) {
   struct vh_buf x = {0};
   size_t* open_end = calloc(depth + 3, sizeof *open_end);
   gen_chain(kind, depth, leaf, &x, open_end);
-  size_t levels = depth + ((leaf == 1 || leaf == 2) ? 1 : 0);
+  bool leaf_opens = leaf == 1 || leaf == 2 || (leaf >= 7 && leaf <= 10);
+  size_t levels = depth + (leaf_opens ? 1 : 0);
   /* independent expectation */
   struct rverdict z = ref_decode(x.p, x.n, LIM, RM_LAZY, false, NULL);
   bool want_accept = levels <= LIM;
@@ -119,7 +129,7 @@ static void nest_case(int kind, int leaf, size_t depth) {
   ta_reset_stats();
   run_job(&j);
   char what[160];
-  snprintf(what, sizeof what, "%s nesting, %zu open level(s)%s, limit %zu, %zu-byte input", chain_names[kind], levels, leaf == 1 ? " (chunked byte string innermost)" : leaf == 2 ? " (chunked text string innermost)" : leaf == 3 ? " (empty definite array innermost, which opens no level)" : leaf == 4 ? " (empty definite map innermost, which opens no level)" : "", LIM, x.n);
+  snprintf(what, sizeof what, "%s nesting, %zu open level(s)%s, limit %zu, %zu-byte input", chain_names[kind], levels, leaf == 1 ? " (chunked byte string innermost)" : leaf == 2 ? " (chunked text string innermost)" : leaf == 3 ? " (empty definite array innermost, which opens no level)" : leaf == 4 ? " (empty definite map innermost, which opens no level)" : leaf == 5 ? " (2 MiB byte string innermost)" : leaf == 6 ? " (2 MiB text string innermost)" : leaf == 7 ? " (chunked text with a 2 MiB chunk innermost)" : leaf == 8 ? " (definite array of 400000 members innermost)" : leaf == 9 ? " (definite map of 200000 pairs innermost)" : leaf == 10 ? " (indefinite array of 400000 members innermost)" : "", LIM, x.n);
   if (j.overflowed) {
     vh_violation("native-stack-exhausted", "%s: the %zu-byte thread stack (64 KiB + 512 B per level of the limit) overflowed during %s", what, g_stack_len - 4096, j.phase);
     /* the tree (if any) is abandoned: forget its blocks */
@@ -190,9 +200,23 @@ static void nest_run(void) {
         if ((leaf == 1 || leaf == 2) && depth > 0) depth -= 1;
         nest_case(kind, leaf, depth);
       }
+  /* heavy leaves: the stack bound is in L, not in the size of a node — strings of 2 MiB and containers of 400000 members
+   * (each larger than the whole stack budget for L <= 2048) at shallow depth, where describe's indentation stays cheap */
+  if (LIM <= 2048) {
+    static const int hkinds[] = {CH_TAG, CH_DEFARR, CH_INDEFMAP_VAL};
+    static const size_t hdepths[] = {0, 1, 3};
+    for (size_t k = 0; k < 3; k++)
+      for (int leaf = 5; leaf <= 10; leaf++)
+        for (size_t di = 0; di < 3; di++, unit++) {
+          if (unit % O.nshards != O.shard) continue;
+          if (hdepths[di] == 0 && k > 0) continue; /* depth 0 is the bare leaf whatever the pattern */
+          nest_case(hkinds[k], leaf, hdepths[di]);
+          VH_COUNT("heavy_leaf_cases", 1);
+        }
+  }
   vh_count_dyn("max_stack_high_water_bytes", g_hwm);
   vh_count_dyn("max_stack_budget_bytes", g_stack_len - 4096);
-  vh_set_rule("each case is a nesting chain (one of 9 container patterns x scalar / chunked-bytes / chunked-text / empty definite array / empty definite map innermost) of a given depth, decoded, sized, serialized, described, copied and released on a thread with a fixed pre-painted stack; outcome and MEMERROR position are compared with the generator's bookkeeping and the reference decoder; every case non-trivial; distinct by (pattern, leaf, depth, L, optimisation level)");
+  vh_set_rule("each case is a nesting chain (one of 9 container patterns x scalar / chunked-bytes / chunked-text / empty definite array / empty definite map innermost, plus 2 MiB strings and 400000-member containers innermost at depths 0, 1, 3) of a given depth, decoded, sized, serialized, described, copied and released on a thread with a fixed pre-painted stack; outcome and MEMERROR position are compared with the generator's bookkeeping and the reference decoder; every case non-trivial; distinct by (pattern, leaf, depth, L, optimisation level)");
   vh_set_exhaustive(false);
 }
 static void nest_exec(const uint8_t* d, size_t n) {
